@@ -36,7 +36,9 @@ ASSUMPTIONS = [
 
 BASE_TEXTS = ['one line', 'two\nlines\n', 'dos\r\nlines\r\n', 'no final\nnl',
               ' lead\n', 'x']
-UNI_TEXTS = ['﻿bom first\n', 'é\n', 'é', '਍\n਀']
+UNI_TEXTS = ['\ufeffbom first\n', '\u00e9\n', '\u00e9', '\u0a0d\n\u0a00',
+             'first\n\ufeffbom starts second line\n',
+             'dos\r\n\ufeffbom starts second line\r\n\ufeff\r\n']
 
 
 def texts_for(codec):
